@@ -246,6 +246,19 @@ def arg_honoured(chk, entry):
             chk.record("ARG-HONOURED", site, "resolved parameter `%s` is used instead of self.%s everywhere after its resolution" % (p, attr))
 
 
+def _resolves_from_self(callee, p):
+    """the callee itself falls back to self.<p> when the parameter is None:  p = self.p if p is None else p"""
+    d = _default_of(callee, p)
+    if not (isinstance(d, ast.Constant) and d.value is None):
+        return False
+    for n in ast.walk(callee.node):
+        if isinstance(n, ast.IfExp) and "self.%s" % p in ast.unparse(n) and "%s is None" % p in ast.unparse(n.test).replace("not None", "None"):
+            return True
+        if isinstance(n, ast.If) and ast.unparse(n.test) == "%s is None" % p and "self.%s" % p in ast.unparse(n):
+            return True
+    return False
+
+
 def protocol(chk, prog, cls, methods):
     batch = cls.lookup("_compute_all")
     if batch is None:
@@ -253,6 +266,8 @@ def protocol(chk, prog, cls, methods):
         return
     chk.touch(batch)
     n = 0
+    own_attrs = {x.attr for g in cls.methods.values() if g.name in ("__init__",) or g.name.startswith("_set") for x in ast.walk(g.node)
+                 if isinstance(x, ast.Attribute) and isinstance(x.ctx, ast.Store) and isinstance(x.value, ast.Name) and x.value.id == "self"}
     for loop in ast.walk(batch.node):
         if not isinstance(loop, ast.For) or not isinstance(loop.target, ast.Name):
             continue
@@ -298,6 +313,11 @@ def protocol(chk, prog, cls, methods):
                     want = "self.%s[%s]" % (p, t)
                     if ast.unparse(a).replace(" ", "") != want:
                         problems.append("parameter `%s` receives `%s`, expected %s" % (p, ast.unparse(a), want))
+                elif a is None:
+                    # a constructor option stored under the parameter's own name must reach the streaming call
+                    if p in own_attrs and not _resolves_from_self(callee, p):
+                        problems.append("constructor option self.%s is not forwarded to `%s` (parameter `%s` keeps its default %s): the batch run ignores the option"
+                                        % (p, callee.name, p, ast.unparse(_default_of(callee, p)) if _default_of(callee, p) is not None else "?"))
                 elif a is not None:
                     txt = ast.unparse(a)
                     d = _default_of(callee, p)
